@@ -224,10 +224,10 @@ def global_rules_body(body):
     # R1  `Some(&x) = e {`  ->  `Some(x__r) = e { let x = *x__r;`
     def r1(m):
         return f"Some({m.group(1)}__r) = {m.group(2)} {{ let {m.group(1)} = *{m.group(1)}__r;"
-    b = rule_sub("R1.ref-pattern", r"Some\(&(\w+)\)\s*=\s*([^{]+?)\s*\{", r1, b)
-    # R1 in match arms: `Some(&x) => {` and `Some(&x) => EXPR,`
+    # R1 in match arms first: `Some(&x) => {` and `Some(&x) => EXPR,`
     b = rule_sub("R1.ref-pattern-arm", r"Some\(&(\w+)\)\s*=>\s*\{", lambda m: f"Some({m.group(1)}__r) => {{ let {m.group(1)} = *{m.group(1)}__r;", b)
     b = rule_sub("R1.ref-pattern-arm", r"Some\(&(\w+)\)\s*=>\s*([^{,\n][^,\n]*),", lambda m: f"Some({m.group(1)}__r) => {{ let {m.group(1)} = *{m.group(1)}__r; {m.group(2)} }},", b)
+    b = rule_sub("R1.ref-pattern", r"Some\(&(\w+)\)\s*=(?!>)\s*([^{]+?)\s*\{", r1, b)
     # R3 cache-key normalisation idiom on ZddRef: `if x <= y { (x, y) } else { (y, x) }` -> zddref_le(x, y)
     b = rule_sub("R3.zddref-order", r"\bif (\w+) <= (\w+) \{\s*\(\1, \2\)\s*\}\s*else\s*\{\s*\(\2, \1\)\s*\}",
                  lambda m: f"if zddref_le({m.group(1)}, {m.group(2)}) {{ ({m.group(1)}, {m.group(2)}) }} else {{ ({m.group(2)}, {m.group(1)}) }}", b)
